@@ -16,6 +16,10 @@ structure St where
   /-- node stream: hex of the dao field answered by the last `dao` op (what `DaoHeaderVerifier`
   compares the header with); empty when that op failed -/
   lastDao : String := ""
+  /-- node stream: the cellbase WITNESS lock of every block of the abstract chain, as
+  `(lock id, args length)`; `blk` appends the default `(0, 0)` (the always-success lock without
+  args), `lock` overwrites it -/
+  locks : List (Nat × Nat) := []
 
 def errName : Err → String
   | .overflow => "err-overflow"
@@ -172,7 +176,8 @@ def step (s : St) (ts : List String) : St × String :=
       if n ≠ s.chain.length then (s, "bad-op") else
       ({ s with chain := s.chain ++ [⟨props, ids, fees⟩],
                 epochs := s.epochs ++ [⟨st, len, base, rem⟩],
-                daos := s.daos ++ [⟨ar, c, s', u⟩] }, "ok")
+                daos := s.daos ++ [⟨ar, c, s', u⟩],
+                locks := s.locks ++ [(0, 0)] }, "ok")
     | _, _, _, _ => (s, "bad-op")
   | ["reward", p] =>
     match parseNat? p with
@@ -201,6 +206,58 @@ def step (s : St) (ts : List String) : St × String :=
     | some [cl, far, n, d, ser, _, _] =>
       ({ win := ⟨cl, far⟩, ratio := ⟨n, d⟩, ser := ser }, "ok")
     | _ => (s, "bad-op")
+  -- the same with the primary epoch reward (harness-only parameter) — the "linear" scenarios
+  | ["node", cl, far, n, d, ser, elen, gcells, per] =>
+    match parseNats? [cl, far, n, d, ser, elen, gcells, per] with
+    | some [cl, far, n, d, ser, _, _, _] =>
+      ({ win := ⟨cl, far⟩, ratio := ⟨n, d⟩, ser := ser }, "ok")
+    | _ => (s, "bad-op")
+  -- … and the bundled NervosDAO script as a genesis code cell
+  | ["node", cl, far, n, d, ser, elen, gcells, per, "dao"] =>
+    match parseNats? [cl, far, n, d, ser, elen, gcells, per] with
+    | some [cl, far, n, d, ser, _, _, _] =>
+      ({ win := ⟨cl, far⟩, ratio := ⟨n, d⟩, ser := ser }, "ok")
+    | _ => (s, "bad-op")
+  | ["nb", _, _, _, _, _, _, _] => (s, "ok")
+  | "dtx" :: _ => (s, "ok")
+  -- the cellbase witness lock of block `n` of the abstract chain
+  | ["lock", n, id, len] =>
+    match parseNats? [n, id, len] with
+    | some [n, id, len] =>
+      if n < s.locks.length then ({ s with locks := s.locks.set n (id, len) }, "ok") else (s, "bad-op")
+    | _ => (s, "bad-op")
+  -- the cellbase the next block on parent `p` must carry: `none` | `out <capacity> <lock id>`
+  | ["cellbase", p] =>
+    match parseNat? p with
+    | some p =>
+      if p < s.chain.length then
+        let r : R String := do
+          let br ← blockRewardToFinalize s.win s.ratio s.ser s.chain
+            (fun n => s.epochs.getD n ⟨0, 0, 0, 0⟩) (fun n => s.daos.getD n ⟨0, 0, 0, 0⟩) p
+          let tl := targetLock s.win s.locks p
+          let occ ← occupied { cap := 0, lockArgs := tl.2, typeArgs := none, dataBytes := 0 }
+          match expectedCellbase s.win p br.total occ with
+          | [] => pure "none"
+          | (cap, _) :: _ => pure s!"out {cap} {tl.1}"
+        (s, match r with
+            | .ok x => x
+            | .error e => errName e)
+      else (s, "bad-op")
+    | none => (s, "bad-op")
+  -- `CellbaseVerifier` (output count) + `RewardVerifier`
+  | ["cbverify", p, total, lockOcc, outs] =>
+    match parseNats? [p, total, lockOcc],
+          parseList? (fun x => match x.splitOn ":" with
+            | [a, b] => (parseNat? a).map fun a => (a, b == "1")
+            | _ => none) "," outs with
+    | some [p, total, lockOcc], some outs =>
+      (s, match cellbaseVerify s.win p total lockOcc outs with
+          | some .ok => "ok"
+          | some .invalidOutputQuantity => "err-quantity"
+          | some .invalidRewardTarget => "err-target"
+          | some .invalidRewardAmount => "err-amount"
+          | none => "err-overflow")
+    | _, _ => (s, "bad-op")
   | ["tx", _, _, _, _] => (s, "ok")
   | ["ub", _, _, _, _] => (s, "ok")
   | ["nb", _, _, _, _, _, _] => (s, "ok")
@@ -210,7 +267,8 @@ def step (s : St) (ts : List String) : St × String :=
     match parseNat? n with
     | some n =>
       if n ≤ s.chain.length then
-        ({ s with chain := s.chain.take n, epochs := s.epochs.take n, daos := s.daos.take n }, "ok")
+        ({ s with chain := s.chain.take n, epochs := s.epochs.take n, daos := s.daos.take n,
+                  locks := s.locks.take n }, "ok")
       else (s, "bad-op")
     | none => (s, "bad-op")
   -- `DaoHeaderVerifier`: `dao != header.dao() -> InvalidDAO`, against the last `dao` answer
